@@ -161,6 +161,14 @@ package y
 //@   rely[done-context-has-error] after call Err : ret != nil
 //@   assigns w.doneUntil.v
 
+// Slice.Resize returns exactly sz bytes (reusing its buffer when it is large enough).
+//@ func (*Slice).Resize
+//@   props C06
+//@   requires s != nil
+//@   domain 0 <= sz && sz <= 1<<46
+//@   ensures[size] len(result) == sz
+//@   assigns s.buf
+
 //@ func SafeCopy
 //@   props C06
 //@   ensures[content] bytes(result) == old(bytes(src))
